@@ -122,14 +122,15 @@ func newLexer(env *interp.ExecEnv, name string, r io.RuneScanner) *lexer {
 }
 
 func (l *lexer) Lex(lval *yySymType) int {
-	verifPoint(1)
+	verifPoint(1, l.cancel)
 	switch tok := (<-l.token).(type) {
 	case token:
-		verifPoint(2)
+		verifPoint(2, l.cancel)
 		l.last.Store(tok.Pos())
 		lval.token = tok
 		return tok.typ
 	case word:
+		verifPoint(2, l.cancel)
 		l.last.Store(tok.Pos())
 		lval.word = tok.val
 		return tok.typ
@@ -139,7 +140,7 @@ func (l *lexer) Lex(lval *yySymType) int {
 
 func (l *lexer) run() {
 	defer func() {
-		verifPoint(8)
+		verifPoint(8, l.cancel)
 		close(l.token)
 		close(l.done)
 
@@ -1713,7 +1714,7 @@ func (l *lexer) emit(typ int) {
 	}
 	l.word = nil
 	l.emitted = true
-	verifPoint(3)
+	verifPoint(3, l.cancel)
 	select {
 	case <-l.cancel:
 		// nothing is delivered once an error has been reported
@@ -1725,7 +1726,7 @@ func (l *lexer) emit(typ int) {
 	case <-l.cancel:
 		panic(bailout)
 	}
-	verifPoint(4)
+	verifPoint(4, l.cancel)
 	l.mark(0)
 }
 
@@ -1807,7 +1808,7 @@ func (l *lexer) report(err error) {
 
 // wait stops the lexer goroutine and waits for it to exit.
 func (l *lexer) wait() {
-	verifPoint(9)
+	verifPoint(9, l.cancel)
 	l.mu.Lock()
 	select {
 	case <-l.cancel:
@@ -1823,7 +1824,7 @@ func (l *lexer) Error(e string) {
 }
 
 func (l *lexer) error(pos ast.Pos, msg string) {
-	verifPoint(7)
+	verifPoint(7, l.cancel)
 	l.mu.Lock()
 	defer l.mu.Unlock()
 
@@ -1884,7 +1885,7 @@ func (h *heredoc) inc() {
 }
 
 func (h *heredoc) push(r *ast.Redir) {
-	verifPoint(5)
+	verifPoint(5, nil)
 	h.mu.Lock()
 	h.stack = append(h.stack, r)
 	h.mu.Unlock()
@@ -1907,7 +1908,7 @@ func (h *heredoc) pop(cancel <-chan struct{}) *ast.Redir {
 		}
 		h.mu.Unlock()
 		// wait
-		verifPoint(6)
+		verifPoint(6, nil)
 		select {
 		case <-h.c:
 		case <-cancel:
